@@ -585,6 +585,18 @@ class C04(Prop):
                       "A PrintFormatted 1 L %s", "A PrintFormatted 3 F Name L %s X Newline", "A FilePrintFormatted S66 2 L %s L %s",
                       "A PrintFormatted 1 F XAttr %s"]:
                 out.append(("TC 0 - 2f " + t.replace("%s", h), "api-string"))
+        # a string and its ESCAPED spelling side by side, both orders, both managers (a table keyed by the escaped
+        # text in one place and the raw text in another confuses them)
+        for u in ["a\\b", 'x"y', "~", "a\\\\b", '\\"', "\\"]:
+            for esc_ in (u.replace("\\", "\\\\").replace('"', '\\"'), u.replace("~", "~~")):
+                if esc_ == u:
+                    continue
+                for a_, b_ in ((esc_, u), (u, esc_)):
+                    qa, qb = quote_any(a_), quote_any(b_)
+                    if qa and qb:
+                        for kw in ("-name", "-ipath"):
+                            for tail in ("", " -print0"):
+                                out.append((PC("( %s %s -o %s %s )%s" % (kw, qa, kw, qb, tail)), "escaped-twin"))
         full = 2 if tier == "quick" else 3
         for kw in ["-name", "-iname", "-path", "-ipath", "-pool", "-xattr", "-fprint", "-fprint0"]:
             L = 3 if (kw == "-name" or tier != "quick") else full
@@ -950,6 +962,13 @@ class C07(Prop):
             for q in ["'", '"']:
                 for body in ["5", "0x10", "1e6", "42 94967296", "10 G", "+1.5G", "5kb", "-5 d", "18446744073709551615 1", "07", " 7", "7 "]:
                     out.append((PC("%s %s%s%s" % (kw, q, body, q)), "quoted-numeric"))
+        for a_, b_ in ((2, 3), (3, 2), (0, 7), (4294967295, 1), (2147483648, 5), (5, 2147483648)):
+            for t_ in ["-threads %d -uid 7 -threads %d", "-threads %d -a -uid 7 -a -threads %d", "-depth -threads %d ( -uid 7 -o -threads %d )",
+                       "-uid 7 -threads %d -o -threads %d", "-threads %d -threads %d -uid 7"]:
+                out.append((PC(t_ % (a_, b_)), "threads-twice"))
+        for n_ in [2147483647, 2147483648, 2147483649, 4294967294, 4294967295, 65535, 65536, 255, 256]:
+            out.append((PC("-threads %d -uid 7" % n_), "threads-boundary"))
+            out.append(("TC 0 %d 2f T UserId Eq 7" % n_, "threads-boundary"))
         return out
 
     def nontrivial(self, case, line):
@@ -996,6 +1015,10 @@ class C08(Prop):
         for bad in ["8", "77", "17777", "20000", "777777777777", "0777x", "777,u+x", "u+x,777", "u+rq", "u+", "+r", "u", "u+r,", ",u+r", "a=rwxs", ""]:
             for pre in ["", "-", "/"]:
                 out.append((P("-perm " + pre + bad), "malformed"))
+        for bits in [0o010000, 0o040000, 0o040755, 0o100644, 0o170000, 0o177777, 0o200000, 2**31, 2**32 - 1, 0o7777, 0]:
+            for k_ in ("Equal", "AtLeast", "Any"):
+                out.append(("TC 0 - 2f T Perm %s %d" % (k_, bits), "api-wide-bits"))
+                out.append(("TC 0 - 2f And T Name S78 Not T Perm %s %d" % (k_, bits), "api-wide-bits"))
         return out
 
     def project(self, case, line):
@@ -1078,6 +1101,9 @@ class C09(Prop):
             out.append((PC("-name a -o -name b"), "alternating"))
             out.append((PC("! -name c"), "alternating"))
             out.append((PC("! -quit"), "alternating"))
+        for t_ in ["Prec A Print", "And T Name S61 Prec A Print", "Not Prec A Quit", "Or Prec And T False A FilePrint S6f T Name S61",
+                   "Prec Prec A PrintFid", "Prec T True", "And Prec T True A Print", "List Prec A Print T True"]:
+            out.append(("TC 0 - 2f " + t_, "api-precedence"))
         return out
 
     def nontrivial(self, case, line):
@@ -1316,6 +1342,11 @@ class C12(Prop):
             for arg in ["1000", "007", "0", "''", '""', "-1", "root", "'a b'", "x*"]:
                 for pre in ["", "-depth ", "-threads 1 ", "-name x "]:
                     out.append((PC("%s%s %s" % (pre, kw, arg)), "unsupported-word-argument"))
+        unsup = ["%d", "%D", "%F", "%l", "%M", "%Y", "%Z", "\\c"]
+        for u_ in unsup:
+            for f_ in [u_, u_ + "\\n", "%p" + u_, "%p" + u_ + "\\n", u_ + "%p", "%p\\n" + u_, "a" + u_ + "b", u_ + u_, "%p " + u_ + " %s\\n"]:
+                for act in ["-printf '%s'", "-fprintf out '%s'", "-false -printf '%s'", "-name x -o -printf '%s' -print"]:
+                    out.append((PC(act % f_), "unsupported-directive-position"))
         for kw in ["-maxdepth", "-mindepth"]:
             for n_ in ["0", "00", "1", "3", "4294967294", "4294967295", "4294967296", "18446744073709551615", "-1", "+1", "x", "''"]:
                 for ctx in ["%s", "-depth %s", "-name foo %s", "-name foo -o ( %s -print )", "! %s", "%s -print", "-threads 2 %s -a -true"]:
@@ -1573,6 +1604,9 @@ class C15(Prop):
         from .core import expand_dups
         seen, bad = {}, []
         for c, i, m in results:
+            if (i or "").startswith("NEQ-SELF"):
+                bad.append((c, "two parses of the same text (or a result and its clone) do not compare equal under the library's own =="))
+                continue
             if c.startswith("FS "):
                 if (i or "").startswith("FS DIFF"):
                     bad.append((c, "compiling the same input before and after its destination files were created gives different results: " + i[8:400]))
@@ -1845,7 +1879,7 @@ class C19(Prop):
 # consults the file system (canonicalize) or normalises paths answers differently for them
 FS_PATHS = [".", "..", "./", "/.", "//", "/tmp/.", "/tmp/..", "/usr/./lib", "/usr/../usr/lib", "/proc/self/..", "/dev/./null",
             "d//f", "d/f", "d/./f", "d/f/", "./d/f", "d/../d/f"]
-HOSTILE_PATHS = FS_PATHS + ["a \nb", "a\t\nb", "a\r\nb", " lead", "trail ", "two  spaces", "\n", "tab\t",
+HOSTILE_PATHS = FS_PATHS + ["".join(t) for n in (2, 3) for t in itertools.product('"\\a', repeat=n)] + ["a \nb", "a\t\nb", "a\r\nb", " lead", "trail ", "two  spaces", "\n", "tab\t",
                  "lipe", "find", "lambda", "#t", "0", "mdt0", "let*", "/mnt/éé\"x", "/日本語\\mdt0", "été \"2024\"/mdt", "💾\"", "/mnt/lustré\\mdt0",
                  "/dev/mdt0", "/", "", "a b", "x\"y", "back\\slash", "q\\", "\"", "é☃", "~a~%", "(;#|", "new\nline", "t\tab", "z" * 10000,
                  "\") (system \"id\") (\"",
